@@ -264,6 +264,7 @@ func check(prop, tier string, writeLock bool, filter string) int {
 	if err != nil || len(pats) == 0 {
 		return violation("no-contracts", fmt.Sprintf("no contract file in %s mentions property %s (contracts removed?)", repoDir, prop))
 	}
+	currentProp = prop
 	g, err := loadGen(repoDir, pats, filepath.Join(verifDir, "contracts", "ext"))
 	if err != nil {
 		if g != nil && len(g.loadErrs) > 0 {
@@ -458,6 +459,7 @@ func check(prop, tier string, writeLock bool, filter string) int {
 			}
 		}
 		writeLocals(prop, fns)
+		g.writeFuncs(prop, fns)
 	}
 
 	nViol := 0
